@@ -185,55 +185,118 @@ func VerifH08a() {
 
 // ---------------------------------------------------------------------------
 // H08b — result formats (C08): the Bind's result-format codes determine the
-// codes announced by Describe-portal and the format handed to the encoder
-// for every column of every DataRow (rule: none -> text, one -> all, n ->
-// positional).
+// codes announced by Describe-portal and the encoding actually used for every
+// column of every DataRow (rule: none -> text, one -> all, n -> positional).
+// Columns are int4 and the row holds int32(7) so that the encoding is visible
+// on the wire: text "7" vs binary 00 00 00 07.
 // ---------------------------------------------------------------------------
+func vInt4Statement(nc int) *PreparedStatement {
+	cols := make(Columns, nc)
+	for i := range cols {
+		cols[i] = Column{Name: "n", Oid: oid.T_int4}
+	}
+	fn := func(ctx context.Context, dw DataWriter, params []Parameter) error {
+		row := make([]any, nc)
+		for i := range row {
+			row[i] = int32(7)
+		}
+		if err := dw.Row(row); err != nil {
+			return err
+		}
+		return dw.Complete("SELECT 1")
+	}
+	return NewStatement(fn, WithColumns(cols))
+}
+
+func vBindBody(portal, stmt []byte, formats []FormatCode) []byte {
+	rf := vU16(len(formats))
+	for _, f := range formats {
+		rf = append(rf, vU16(int(f))...)
+	}
+	return vCat(vCStr(portal), vCStr(stmt), vU16(0), vU16(0), rf)
+}
+
+// vCheckPortalFormats describes and executes the portal and checks announced
+// and used formats against the expected per-column codes.
+func vCheckPortalFormats(w *vWorld, portal []byte, nc int, formats []FormatCode, tag string) {
+	w.conn.out = nil
+	desc := vCat([]byte{'P'}, vCStr(portal))
+	vAssert(tag+"describe-ok", w.ses.handleDescribe(w.ctx, &buffer.Reader{Msg: desc, MaxMessageSize: 64}, w.wr) == nil)
+	msgs, ok := vFrames(w.conn.out)
+	vAssert(tag+"describe-portal-is-RowDescription", ok && len(msgs) == 1 && msgs[0].typ == 'T' && vBodyOK(msgs[0]))
+	b := msgs[0].body
+	vAssert(tag+"rowdescription-count", vBE16(b, 0) == nc)
+	i := 2
+	for c := 0; c < nc; c++ {
+		j := vCString(b, i)
+		vAssert(tag+"announced-format", vBE16(b, j+16) == int(vFormatFor(formats, c)))
+		i = j + 18
+	}
+	w.conn.out = nil
+	exec := vCat(vCStr(portal), vU32(0))
+	vAssert(tag+"execute-ok", w.ses.handleExecute(w.ctx, &buffer.Reader{Msg: exec, MaxMessageSize: 64}, w.wr) == nil)
+	rows, ok2 := vFrames(w.conn.out)
+	vAssert(tag+"execute-writes-row", ok2 && len(rows) == 2 && rows[0].typ == 'D' && rows[1].typ == 'C')
+	d := rows[0].body
+	vAssert(tag+"datarow-count", vBE16(d, 0) == nc)
+	k := 2
+	for c := 0; c < nc; c++ {
+		l := int(vBE32(d, k))
+		k += 4
+		if vFormatFor(formats, c) == BinaryFormat {
+			vAssert(tag+"binary-encoding-used", l == 4 && d[k+3] == 7 && d[k] == 0)
+		} else {
+			vAssert(tag+"text-encoding-used", l == 1 && d[k] == '7')
+		}
+		k += l
+	}
+}
+
 func VerifH08b() {
 	nc := 1 + vChoose(vParam("COLS", 2))
 	formats := vFormats(nc)
 	w := vNewWorld(nil, 64)
-	w.execMenu = 1
-	st := w.mkStmt(nc, 0)
-	vAssert("set-ok", w.ses.Statements.Set(w.ctx, "", st) == nil)
-	var rf []byte
-	rf = append(rf, vU16(len(formats))...)
-	for _, f := range formats {
-		rf = append(rf, vU16(int(f))...)
-	}
-	bind := vCat(vCStr(nil), vCStr(nil), vU16(0), vU16(0), rf)
+	vAssert("set-ok", w.ses.Statements.Set(w.ctx, "", vInt4Statement(nc)) == nil)
+	bind := vBindBody(nil, nil, formats)
 	vAssert("bind-ok", w.ses.handleBind(w.ctx, &buffer.Reader{Msg: bind, MaxMessageSize: 64}, w.wr) == nil)
-	w.conn.out = nil
-	desc := vCat([]byte{'P'}, vCStr(nil))
-	vAssert("describe-ok", w.ses.handleDescribe(w.ctx, &buffer.Reader{Msg: desc, MaxMessageSize: 64}, w.wr) == nil)
-	msgs, ok := vFrames(w.conn.out)
-	vAssert("describe-portal-is-RowDescription", ok && len(msgs) == 1 && msgs[0].typ == 'T' && vBodyOK(msgs[0]))
-	b := msgs[0].body
-	vAssert("rowdescription-count", vBE16(b, 0) == nc)
-	i := 2
-	for c := 0; c < nc; c++ {
-		j := vCString(b, i)
-		vAssert("announced-format", vBE16(b, j+16) == int(vFormatFor(formats, c)))
-		i = j + 18
-	}
-	// the encoding actually used
-	w.conn.out = nil
-	exec := vCat(vCStr(nil), vU32(0))
-	vAssert("execute-ok", w.ses.handleExecute(w.ctx, &buffer.Reader{Msg: exec, MaxMessageSize: 64}, w.wr) == nil)
-	vAssert("execute-writes-row", vTypes(w.conn.out) == "DC")
-	if vSymbolic() {
-		used := vEncodeFormats()
-		vAssert("encoder-called-per-column", len(used) == nc)
-		for c := 0; c < nc; c++ {
-			vAssert("encoding-format", used[c] == int(vFormatFor(formats, c)))
-		}
-	}
+	vCheckPortalFormats(w, nil, nc, formats, "")
 	if len(formats) == 1 && nc == 2 {
 		vReach("one-code-applies-to-all")
 	}
 	if len(formats) == 2 {
 		vReach("positional-codes")
 	}
+}
+
+// ---------------------------------------------------------------------------
+// H07d — re-binding a portal name replaces its result formats too (C07, C08):
+// Bind p1 with formats f1, Bind p2 with formats f2 (names symbolic, so the
+// solver decides whether the second replaces the first), then Describe and
+// Execute p3: the formats in force are those of the latest Bind of that name.
+// ---------------------------------------------------------------------------
+func VerifH07d() {
+	nc := 2
+	f1 := vFormats(nc)
+	f2 := vFormats(nc)
+	p1, p2, p3 := vSymName(), vSymName(), vSymName()
+	w := vNewWorld(nil, 64)
+	vAssert("set-ok", w.ses.Statements.Set(w.ctx, "", vInt4Statement(nc)) == nil)
+	vAssert("bind-1", w.ses.handleBind(w.ctx, &buffer.Reader{Msg: vBindBody(p1, nil, f1), MaxMessageSize: 64}, w.wr) == nil)
+	vAssert("bind-2", w.ses.handleBind(w.ctx, &buffer.Reader{Msg: vBindBody(p2, nil, f2), MaxMessageSize: 64}, w.wr) == nil)
+	var want []FormatCode
+	known := false
+	if vEqBytes(p3, p2) {
+		want, known = f2, true
+		if vEqBytes(p1, p2) {
+			vReach("rebound-portal")
+		}
+	} else if vEqBytes(p3, p1) {
+		want, known = f1, true
+	}
+	if !known {
+		return
+	}
+	vCheckPortalFormats(w, p3, nc, want, "latest-bind-")
 }
 
 // ---------------------------------------------------------------------------
